@@ -188,3 +188,105 @@ fn c05_fmt_region_palette_level() {
     kani::cover!(which == 1 && kitty);
     std::mem::forget(enc);
 }
+
+// ---------------------------------------------------------------- C20: the 256-colour index that is emitted
+// LinColor::distance (sqrt over SIMD lanes in the rasterize crate) is replaced by a recorder that answers with free values:
+// which of the two candidates is closer is decided by the caller of this stub, the harness checks what is done with the answer.
+static mut DN: usize = 0;
+static mut DOTHER: [[f32; 3]; 2] = [[0.0; 3]; 2];
+static mut DANS: [f32; 2] = [0.0; 2];
+fn stub_distance(this: LinColor, other: LinColor) -> f32 {
+    unsafe {
+        let [r, g, b, _]: [f32; 4] = other.into();
+        let k = DN;
+        if k < 2 { DOTHER[k] = [r, g, b]; }
+        DN += 1;
+        if k < 2 { DANS[k] } else { 0.0 }
+    }
+}
+
+//# kind=complete tier=thorough props=C20,C05 fns=color_sgr_encode,nearest | 256-colour depth (foreground role; the role only selects the 38/48/58 prefix, see c05_face_colour_roles): the index emitted after `38;5` is the xterm index of one of two candidates - cube entry 16 + 36 r + 6 g + b for the per-channel nearest cube levels, or grey-ramp entry 232 + k for the level nearest to the mean of the channels - namely the grey one exactly when the colour metric reports it strictly closer; the metric is asked about exactly these two palette colours (per-channel arg-min is proved by c20_nearest_*, table values by c20_tables_linear_light)
+#[kani::proof]
+#[kani::unwind(12)]
+#[kani::stub(rasterize::LinColor::distance, stub_distance)]
+fn c20_eightbit_index() {
+    use kfmt_rec::*;
+    unsafe { REAL = false; }
+    let (r, g, b): (f32, f32, f32) = (kani::any(), kani::any(), kani::any());
+    kani::assume(r >= 0.0 && r <= 1.0 && g >= 0.0 && g <= 1.0 && b >= 0.0 && b <= 1.0);
+    let (d_grey, d_cube): (f32, f32) = (kani::any(), kani::any());
+    kani::assume(!d_grey.is_nan() && !d_cube.is_nan());
+    unsafe { DANS = [d_grey, d_cube]; }
+    let mut chunks = Chunks::default();
+    let res = color_sgr_encode(&mut chunks, LinColor::new(r, g, b, 1.0), ColorDepth::EightBit, SGRColorType::Foreground);
+    assert!(res.is_ok());
+    let (cr, cg, cb) = (nearest(r, CUBE), nearest(g, CUBE), nearest(b, CUBE));
+    let k = nearest((r + g + b) / 3.0, GREYS);
+    unsafe {
+        assert!(DN == 2);
+        assert!(DOTHER[0][0] == GREYS[k] && DOTHER[0][1] == GREYS[k] && DOTHER[0][2] == GREYS[k]);
+        assert!(DOTHER[1][0] == CUBE[cr] && DOTHER[1][1] == CUBE[cg] && DOTHER[1][2] == CUBE[cb]);
+        assert!(NF == 1 && NA == 1 && OTHERS == 0 && str_eq(FMTS[0], "{}"));
+        let want = if d_grey < d_cube { 232 + k } else { 16 + 36 * cr + 6 * cg + cb };
+        assert!(ARGS[0] == want as i128);
+        assert!(ARGS[0] >= 16 && ARGS[0] <= 255);
+    }
+    kani::cover!(d_grey < d_cube);
+    kani::cover!(cr == 1 && cg == 2 && cb == 3 && d_grey > d_cube);
+    std::mem::forget(res);
+    std::mem::forget(chunks);
+}
+
+// modular variant: `nearest` by a recording stub that answers with any index of the table it is given (its arg-min contract is
+// proved by c20_nearest_cube / c20_nearest_greys); the harness checks which queries are made and what is done with the answers
+static mut NQ: usize = 0;
+static mut QV: [f32; 4] = [0.0; 4];
+static mut QLEN: [usize; 4] = [0; 4];
+static mut QANS: [usize; 4] = [0; 4];
+fn stub_nearest(v: f32, vs: &[f32]) -> usize {
+    unsafe {
+        let k = NQ;
+        NQ += 1;
+        if k < 4 { QV[k] = v; QLEN[k] = vs.len(); QANS[k] } else { 0 }
+    }
+}
+
+//# kind=complete tier=quick props=C20,C05 fns=color_sgr_encode | 256-colour depth, modular in `nearest`: the three channels are looked up in the 6-level cube table and the mean (r + g + b) / 3 in the 24-level grey table; the index emitted is 232 + k for the grey answer k when the metric reports the grey candidate strictly closer and 16 + 36 r + 6 g + b for the cube answers otherwise, for every role (38 / 48 / 58 prefix followed by 5)
+#[kani::proof]
+#[kani::unwind(12)]
+#[kani::stub(rasterize::LinColor::distance, stub_distance)]
+#[kani::stub(nearest, stub_nearest)]
+fn c20_eightbit_index_modular() {
+    use kfmt_rec::*;
+    unsafe { REAL = false; }
+    let (r, g, b): (f32, f32, f32) = (kani::any(), kani::any(), kani::any());
+    kani::assume(r >= 0.0 && r <= 1.0 && g >= 0.0 && g <= 1.0 && b >= 0.0 && b <= 1.0);
+    let (d_grey, d_cube): (f32, f32) = (kani::any(), kani::any());
+    kani::assume(!d_grey.is_nan() && !d_cube.is_nan());
+    let ans: [usize; 4] = kani::any();
+    kani::assume(ans[0] < 6 && ans[1] < 6 && ans[2] < 6 && ans[3] < 24);
+    unsafe { DANS = [d_grey, d_cube]; QANS = ans; }
+    let role: u8 = kani::any();
+    kani::assume(role < 3);
+    let mut chunks = Chunks::default();
+    let res = color_sgr_encode(&mut chunks, LinColor::new(r, g, b, 1.0), ColorDepth::EightBit,
+        match role { 0 => SGRColorType::Foreground, 1 => SGRColorType::Background, _ => SGRColorType::Underline });
+    assert!(res.is_ok());
+    unsafe {
+        assert!(NQ == 4 && QLEN[0] == 6 && QLEN[1] == 6 && QLEN[2] == 6 && QLEN[3] == 24);
+        assert!(QV[0] == r && QV[1] == g && QV[2] == b);
+        // the mean, up to rounding of a different but equivalent formula
+        let mean = (r + g + b) / 3.0;
+        assert!(QV[3] - mean <= 1e-6 && mean - QV[3] <= 1e-6);
+        assert!(DN == 2);
+        assert!(DOTHER[0][0] == GREYS[ans[3]] && DOTHER[0][1] == GREYS[ans[3]] && DOTHER[0][2] == GREYS[ans[3]]);
+        assert!(DOTHER[1][0] == CUBE[ans[0]] && DOTHER[1][1] == CUBE[ans[1]] && DOTHER[1][2] == CUBE[ans[2]]);
+        assert!(NF == 1 && NA == 1 && OTHERS == 0 && str_eq(FMTS[0], "{}"));
+        let want = if d_grey < d_cube { 232 + ans[3] } else { 16 + 36 * ans[0] + 6 * ans[1] + ans[2] };
+        assert!(ARGS[0] == want as i128);
+    }
+    kani::cover!(d_grey < d_cube && role == 2);
+    kani::cover!(ans[0] == 1 && ans[1] == 2 && ans[2] == 3 && d_grey > d_cube);
+    std::mem::forget(res);
+    std::mem::forget(chunks);
+}
